@@ -146,7 +146,8 @@ Proof.
   destruct (sget (s_avs st) (addr_key addr)) as [a|] eqn:Eold; [|exact Hinv].
   destruct (negb (String.eqb (by_task_addr (s_avs st) (p_task p)) "") &&
             negb (String.eqb (by_task_addr (s_avs st) (p_task p)) (a_addr a))) eqn:Ec; [exact Hinv|].
-  destruct (assets_ok e (p_assets p)); simpl; [|exact Hinv].
+  destruct (assets_ok e (p_assets p)); cbn [negb]; [|exact Hinv].
+  destruct (negb (String.eqb (p_epoch p) "") && _); [exact Hinv|]. cbn [fst s_avs with_avs].
   pose proof Hinv as [Hs [Hk Hu]].
   assert (Ha : In (addr_key addr, a) (s_avs st)) by (apply (sget_in _ _ _ Hs); exact Eold).
   apply reg_inv_set_fresh; auto. simpl.
@@ -442,6 +443,8 @@ Proof.
   destruct (assoc (s_pubs st) (i_op i)); cbn [negb andb]; [|split; discriminate].
   destruct pk; cbn [negb andb]; [|split; discriminate].
   destruct (assoc (s_tasks st) (join2 (i_task i) (dec_str (i_id i)))) as [t|]; [|split; discriminate].
+  destruct (mem (i_op i) (t_optin t)); cbn [negb andb];
+    [|destruct (assoc (s_epochs st) (by_task_epoch (s_avs st) (i_task i))); split; discriminate].
   destruct (assoc (s_epochs st) (by_task_epoch (s_avs st) (i_task i))) as [cur|]; [|split; discriminate].
   rewrite gtb_neg.
   destruct (assoc (s_res st) (res_key (i_op i) (i_task i) (i_id i))); cbn [andb]; [split; discriminate|].
@@ -464,6 +467,8 @@ Proof.
   destruct (assoc (s_pubs st) (i_op i)); cbn [negb andb]; [|split; discriminate].
   destruct pk; cbn [negb andb]; [|split; discriminate].
   destruct (assoc (s_tasks st) (join2 (i_task i) (dec_str (i_id i)))) as [t|]; [|split; discriminate].
+  destruct (mem (i_op i) (t_optin t)); cbn [negb andb];
+    [|destruct (assoc (s_epochs st) (by_task_epoch (s_avs st) (i_task i))); split; discriminate].
   destruct (assoc (s_epochs st) (by_task_epoch (s_avs st) (i_task i))) as [cur|]; [|split; discriminate].
   rewrite ltb_neg.
   destruct (i_resp i) as [|rid rsum|x] eqn:Er; cbn [resp_is_nil]; try rewrite gtb_neg.
@@ -693,8 +698,8 @@ Lemma witness_a :
   s_res (run w_env w_st0 w_ops_a) = [].
 Proof. vm_compute. split; reflexivity. Qed.
 
-(* (b) op2 never opted in, its phase-one result is accepted, and after the statistics it is listed both as signer and
-   as non-signer *)
+(* (b) REGRESSION (former refutation witness): op2 never opted in; its phase-one result is now rejected, and after the
+   statistics only op1 is a signer and nobody is a non-signer *)
 Definition w_ops_b : list op :=
   w_prefix ++
   [ OSubmit "op1" true (Some (mkInfo "op1" "" RNil (Some "s1") "0xT" 1 "1")) true false;
@@ -703,9 +708,9 @@ Definition w_ops_b : list op :=
     OEpochEnd [("minute"%string, 3)] w_usd w_opusd ]%string.
 
 Lemma witness_b :
-  run_results w_env w_st0 w_ops_b = [ROk; ROk; ROk; ROk; ROk; ROk; ROk; ROk; ROk; ROk] /\
+  run_results w_env w_st0 w_ops_b = [ROk; ROk; ROk; ROk; ROk; ROk; ROk; RErr; ROk; ROk] /\
   match sget (s_tasks (run w_env w_st0 w_ops_b)) "0xT/1" with
-  | Some t => t_optin t = ["op1"%string] /\ t_signed t = ["op1"; "op2"]%string /\ t_nosigned t = ["op2"%string]
+  | Some t => t_optin t = ["op1"%string] /\ t_signed t = ["op1"%string] /\ t_nosigned t = []
   | None => False
   end.
 Proof. vm_compute. repeat split; reflexivity. Qed.
@@ -737,18 +742,19 @@ Proof. vm_compute. repeat split; reflexivity. Qed.
 
 Lemma opt_in_ok_requires e st addr caller operator self frozen st' :
   opt_in e st addr caller operator self frozen = (st', ROk) ->
-  exists a v, sget (s_avs st) (addr_key addr) = Some a /\ is_operator e operator = true /\
+  exists a v, sget (s_avs st) (addr_key addr) = Some a /\ a_addr a = addr /\ is_operator e operator = true /\
               self = Some v /\ dec_of_int (a_min_self a) <= v /\ opted_active st operator addr = false.
 Proof.
   unfold opt_in. intro H.
   destruct (is_zero caller); [inversion H|].
   destruct (is_operator e operator) eqn:Eo; simpl in H; [|inversion H].
   destruct (sget (s_avs st) (addr_key addr)) as [a|] eqn:Ea; [|inversion H].
+  destruct (String.eqb (a_addr a) addr) eqn:Esp; cbn [negb] in H; [|inversion H].
   destruct (opted_active st operator addr) eqn:Eopt; [inversion H|].
   destruct self as [v|]; [|inversion H].
   destruct (v <? dec_of_int (a_min_self a)) eqn:Ev; [inversion H|].
   destruct frozen; [inversion H|].
-  exists a, v. repeat split; auto. apply Z.ltb_ge in Ev. exact Ev.
+  exists a, v. apply String.eqb_eq in Esp. repeat split; auto. apply Z.ltb_ge in Ev. exact Ev.
 Qed.
 
 Lemma unique_avs e ops st : reg_inv (s_avs st) -> forallb op_wf ops = true ->
@@ -772,7 +778,7 @@ Qed.
 
 Lemma optin_requires e st key addr caller operator self frozen st' :
   step e st (OOptIn key addr caller operator self frozen) = (st', ROk) ->
-  exists a v, sget (s_avs st) (addr_key addr) = Some a /\ is_operator e operator = true /\
+  exists a v, sget (s_avs st) (addr_key addr) = Some a /\ a_addr a = addr /\ is_operator e operator = true /\
               self = Some v /\ dec_of_int (a_min_self a) <= v /\ opted_active st operator addr = false.
 Proof. exact (opt_in_ok_requires e st addr caller operator self frozen st'). Qed.
 
@@ -802,18 +808,6 @@ Lemma nonsigners_spec optin signed x :
   (In x (difference optin signed) <-> (In x signed /\ ~ In x optin) \/ (In x optin /\ ~ In x signed)) /\
   ((forall s, In s signed -> In s optin) -> (In x (difference optin signed) <-> In x optin /\ ~ In x signed)).
 Proof. split; [apply difference_spec | apply nosigned_when_signers_opted]. Qed.
-
-Lemma refuted_signer_not_opted_in : exists e st0 ops t o,
-  st_sorted st0 /\ reg_inv (s_avs st0) /\ forallb (fun r => result_eqb r ROk) (run_results e st0 ops) = true /\
-  sget (s_tasks (run e st0 ops)) "0xT/1" = Some t /\ In o (t_signed t) /\ In o (t_nosigned t) /\ ~ In o (t_optin t).
-Proof.
-  destruct witness_b as [Hr Ht].
-  destruct (sget (s_tasks (run w_env w_st0 w_ops_b)) "0xT/1") as [t|] eqn:E; [|contradiction].
-  destruct Ht as [H1 [H2 H3]].
-  exists w_env, w_st0, w_ops_b, t, "op2"%string.
-  split; [apply empty_sorted|]. split; [apply reg_inv_empty|]. split; [rewrite Hr; reflexivity|]. split; [exact E|].
-  rewrite H1, H2, H3. simpl. split; [auto|]. split; [auto|]. intros [H|H]; [discriminate|contradiction].
-Qed.
 
 Lemma hyps_satisfiable eps : st_sorted (empty_state eps) /\ reg_inv (s_avs (empty_state eps)).
 Proof. split; [apply empty_sorted | apply reg_inv_empty]. Qed.
